@@ -33,6 +33,7 @@ def _is_ours(name):
 # file, so the set is known without scanning the ~700 entries of sys.modules twice per switch; modules imported lazily while a node
 # runs are found by a scan on exit, made only when the size of sys.modules changed in between.
 _cur_keys = None
+_active = None  # the node whose module set is installed right now (None: the program's own)
 
 
 def _current_keys():
@@ -226,19 +227,20 @@ class Node:
 
     # context switch -----------------------------------------------------
     def __enter__(self):
-        global _cur_keys
+        global _cur_keys, _active
         self._stack = getattr(self, "_stack", [])
         mods = sys.modules
         saved = {k: mods.pop(k) for k in _current_keys() if k in mods}
         mods.update(self.modules)
         _cur_keys = list(self.modules)
-        self._stack.append((saved, len(mods)))
+        self._stack.append((saved, len(mods), _active))
+        _active = self
         return self
 
     def __exit__(self, *exc):
-        global _cur_keys
+        global _cur_keys, _active
         mods = sys.modules
-        saved, size = self._stack.pop()
+        saved, size, _active = self._stack.pop()
         if len(mods) != size:
             # modules imported lazily while the node ran belong to the node
             for k in [k for k in mods if _is_ours(k)]:
@@ -251,9 +253,17 @@ class Node:
 
     def mod(self, name):
         """Return a module of this node, importing it inside the node if needed."""
+        global _cur_keys
         if name not in self.modules:
-            with self:
+            if _active is self:
+                # already inside this node: import in place (a nested context would put the former module set back on exit)
                 importlib.import_module(name)
+                for k in [k for k in sys.modules if _is_ours(k)]:
+                    self.modules[k] = sys.modules[k]
+                _cur_keys = list(self.modules)
+            else:
+                with self:
+                    importlib.import_module(name)
         return self.modules[name]
 
     def __getattr__(self, item):
